@@ -517,7 +517,7 @@ void LDAPrediction(matrix *mx,
         continue;
       }
     }
-    prediction->data[i][0] = (argmax+pos);
+    prediction->data[i][0] = (argmax-pos); /* label = class index + class_start, and pos = -class_start */
   }
 
   /* Predict the the new projection in the feature space */
